@@ -865,10 +865,11 @@ func init() {
 		},
 		ReplayInput: func(env *EnumEnv, raw []byte) []*Violation {
 			var kc struct {
-				Kill *int `json:"kill"`
+				Kill *int   `json:"kill"`
+				Call string `json:"call"`
 			}
 			if err := jsonUnmarshal(raw, &kc); err == nil && kc.Kill != nil {
-				return replayKill("C13", *kc.Kill)
+				return replayKill("C13", *kc.Kill, kc.Call)
 			}
 			var fc struct {
 				FailedCreate *createFaultCase `json:"failedCreate"`
